@@ -43,7 +43,9 @@ def requests(tier, seed):
                                 auth=auth_clients is not None, clients=[dict(c) for c in (auth_clients or [])],
                                 ports=[dict(p) for p in ports], reuse=False,
                                 # local ports for int-form mappings are allocated on later reactor turns (as a real reactor does)
-                                asyncports=(len(out) % 2 == 1)))
+                                asyncports=(len(out) % 2 == 1),
+                                # Tor refuses the first DEL_ONION; the caller removes again
+                                delfail=(len(out) % 3 == 2)))
                 if auth_clients:
                     # the same request, made with an auth object that has already served another service
                     out.append(dict(out[-1], key=dict(key), clients=[dict(c) for c in auth_clients],
